@@ -9,7 +9,9 @@ package main
 
 import (
 	"crypto/sha256"
+	"encoding/json"
 	"fmt"
+	"os"
 	"runtime"
 	"sort"
 	"strconv"
@@ -429,11 +431,20 @@ func isLogLine(op string) bool {
 	return len(f) > 0 && (f[0] == "vsub" || f[0] == "ssub" || f[0] == "sref" || f[0] == "vhist")
 }
 
+// sideFile, in the stress child, receives every failure as it is found (one JSON object per line).
+var sideFile *os.File
+
 func fail(r *hx.Run, kind, oracle, detail, line string) {
 	if len(line) > 600 {
 		line = line[:600] + "…"
 	}
-	r.Fail(oracle, detail+" | "+line, map[string]string{"oracle": oracle, "mode": "stress", "kind": kind})
+	sig := map[string]string{"oracle": oracle, "mode": "stress", "kind": kind}
+	r.Fail(oracle, detail+" | "+line, sig)
+	if sideFile != nil {
+		if b, err := json.Marshal(hx.Finding{Oracle: oracle, Detail: detail + " | " + line, Signature: sig}); err == nil {
+			sideFile.Write(append(b, '\n'))
+		}
+	}
 }
 
 func noteTokens(evs []string) (ns []string) {
@@ -653,7 +664,13 @@ func runStress(r *hx.Run) {
 			return // a timed-out round leaves goroutines behind: stop here, the failure is recorded
 		}
 		if i < 2 {
-			r.Sample(r.CaseLines())
+			ls := r.CaseLines()
+			for j := range ls {
+				if len(ls[j]) > 300 {
+					ls[j] = ls[j][:300] + "…"
+				}
+			}
+			r.Sample(ls)
 		}
 	}
 }
